@@ -75,6 +75,9 @@ def mk_rl(dt, seq, via="from_array"):
     adjacent equal runs must behave exactly like the minimal one."""
     a = dec_seq(seq, dt)
     n = len(a)
+    if via in ("ufunc", "astype") and a.dtype.kind in "iu" and a.dtype.itemsize == 8 and n and \
+            (int(a.max()) >= 2 ** 31 or int(a.min()) < -2 ** 31):
+        via = "concat2"                      # those two constructions go through small-value arithmetic / float64: not value-preserving here
     if via == "from_array" or n < 2:
         return RunLengthArray.from_array(a)
     if via in ("derived", "derived2"):             # a result of a ufunc on another array: it shares that array's boundary object
@@ -275,6 +278,23 @@ def op_reduce(c, o):
     return out if snap(r) == before else ["mutated", "operand changed"]
 
 
+def op_wsum(c, o):
+    """sum of a 64-bit array with values beyond 2**53 (values and result travel as 16-bit limbs)"""
+    from .enc import limbs, enc_float
+    dt, seq = c[1], c[2]
+    r = mk_rl(dt, seq, o.get("via", "from_array"))
+    before = snap(r)
+    res = np.sum(r) if o.get("how", "np") == "np" else r.sum()
+    res = np.asarray(res)[()]
+    if isinstance(res, (np.floating, float)):
+        # a float result: report the integer it denotes under the array's own dtype (the dtype of aggregates is not claimed; a limb
+        # tuple must not meet a rational in the validator)
+        out = ["scalar", dt, limbs(int(res))] if np.isfinite(res) else ["raised", "NonFiniteSum"]
+    else:
+        out = ["scalar", ER.dt_of(res.dtype), limbs(int(res))]
+    return out if snap(r) == before else ["mutated", "operand changed"]
+
+
 def op_hist(c, o):
     """np.histogram(rla) must equal np.histogram(decoded array): the oracle is numpy itself, as the property states"""
     dt, seq, bins = c[1], c[2], c[3]
@@ -359,7 +379,7 @@ def op2_concat(c, o):
     return proj(res)
 
 
-OPS = {"rl_roundtrip": op_roundtrip, "rl_getitem": op_getitem, "rl_ufunc": op_ufunc, "rl_reduce": op_reduce, "rl_hist": op_hist,
+OPS = {"rl_roundtrip": op_roundtrip, "rl_getitem": op_getitem, "rl_ufunc": op_ufunc, "rl_reduce": op_reduce, "rl_wsum": op_wsum, "rl_hist": op_hist,
        "rl_concat": op_concat, "rl2_getitem": op2_getitem, "rl2_func": op2_func, "rl2_ufunc": op2_ufunc, "rl2_concat": op2_concat}
 
 
